@@ -15,6 +15,10 @@ for p in "$@"; do
   git -C /repo worktree remove --force /tmp/wt$w-$p 2>/dev/null
   rm -rf /tmp/wt$w-$p
   # the deliverables go only when both were taken in
-  if [ -f /verif/seeded/$p-m$((off+1))/meta.json ] && [ -f /verif/seeded/$p-m$((off+2))/meta.json ]; then rm -rf /tmp/out$w-$p; else echo "kept /tmp/out$w-$p (not everything ingested)"; fi
+  ok=1
+  for i in 1 2; do
+    if [ -d /tmp/out$w-$p/mutant$i ] && [ ! -f /verif/seeded/$p-m$((off+i))/meta.json ]; then ok=0; fi
+  done
+  if [ $ok = 1 ]; then rm -rf /tmp/out$w-$p; else echo "kept /tmp/out$w-$p (not everything ingested)"; fi
 done
 [ -n "$ids" ] && /verif/tools/run_seeded.py $ids 2>&1 | tail -$(echo $ids | wc -w)
